@@ -350,6 +350,14 @@ func verifModelBinaryWrite(w io.Writer, order binary.ByteOrder, data any) error 
 // the same order as the first one
 //@ pred sameFieldsAs0(segments, si) = forall fi int :: {segments[si].fieldsInv[fi]} 0 <= fi && fi < len(segments[si].fieldsInv) ==> len(segments[si].fieldsInv) == len(segments[0].fieldsInv) && segments[si].fieldsInv[fi] == segments[0].fieldsInv[fi]
 
+// the stored-field visitor of the re-encode path copies a value's array positions into the free tail of a shared
+// buffer: the tail shrinks by exactly what was handed out, so windows of successive values never overlap
+//@ func mergeStoredAndRemap$2 returns (keep)
+//@ thin
+//@ tags [C05]
+//@ ensures keep && len(pos) > 0 && old(cap(posTemp)) >= len(pos) ==> base(posTemp) == old(base(posTemp)) && off(posTemp) == old(off(posTemp)) + len(pos) && cap(posTemp) == old(cap(posTemp)) - len(pos) [C05]
+//@ end
+
 //@ func mergeStoredAndRemap returns (storedIndexOffset, rv, err)
 //@ thin
 //@ uses rankZero, rankStep, rankFull
@@ -1291,10 +1299,10 @@ func lemmaUvLenRange(a []byte, o int) {}
 //@ tags [C06,C08,C13]
 //@ requires m != nil
 //@ wf requires len(m.currVs) == len(m.currKs)
-//@ ensures len(m.lowIdxs) == 0 <==> (forall i int :: {m.currKs[i]} 0 <= i && i < len(m.currKs) ==> !enumLive(m, i, skipEmptyKey)) [C08]
+//@ ensures len(m.lowIdxs) == 0 <==> (forall i int :: {m.currKs[i]} 0 <= i && i < len(m.currKs) ==> !enumLive(m, i, skipEmptyKey)) [C06,C08,C13]
 //@ ensures m.lowCurr == 0 && m.currKs == old(m.currKs) && m.currVs == old(m.currVs) && row(m.currKs) == old(row(m.currKs)) && row(m.currVs) == old(row(m.currVs))
 //@ loop 1 invariant 0 <= $k && $k <= len(m.currKs) && m.currKs == old(m.currKs) && m.currVs == old(m.currVs) && row(m.currKs) == old(row(m.currKs)) && row(m.currVs) == old(row(m.currVs)) && m.lowCurr == 0
-//@ loop 1 invariant len(m.lowIdxs) == 0 <==> (forall i int :: {m.currKs[i]} 0 <= i && i < $k ==> !enumLive(m, i, skipEmptyKey)) [C08]
+//@ loop 1 invariant len(m.lowIdxs) == 0 <==> (forall i int :: {m.currKs[i]} 0 <= i && i < $k ==> !enumLive(m, i, skipEmptyKey)) [C06,C08,C13]
 //@ end
 
 // ---- C12: thesaurus lookups ----
@@ -1540,6 +1548,27 @@ func lemmaSynonymCodeRoundTrip(synonymID, docID uint32) {
 //@ loop 1 invariant len(di.curChunkHeader) == int(numDocs) && 0 <= i [C03]
 //@ ensures di.chunkOffsets == old(di.chunkOffsets) && di.dvDataLoc == old(di.dvDataLoc) && di.field == old(di.field)
 //@ modifies docValueReader.*[di], alloc, new MetaData.*, elems(*)
+//@ end
+
+// a reader's decoded buffer, when non-empty, is the decoding of the chunk it currently holds; the terms handed to the
+// visitor are cut out of the decoding of that chunk (never out of a buffer left over from another chunk)
+//@ func (*docValueReader).visitDocValues.visitor(field, term)
+//@ trusted
+//@ modifies *
+//@ end
+
+//@ func (*docValueReader).visitDocValues returns (err)
+//@ thin
+//@ tags [C03]
+//@ requires di != nil
+// (representation invariant of a reader: established by loadDvChunk - empty buffer - and re-established below)
+//@ wf requires len(di.uncompressed) > 0 ==> decodedFrom(base(di.uncompressed)) == base(di.curChunkData)
+// a visitor callback does not change the reader it is called from (assumed about callers' closures; reported)
+//@ assume (*docValueReader).visitDocValues.visitor#1 : di.curChunkData == old(di.curChunkData) && di.uncompressed == old(di.uncompressed) && di.curChunkNum == old(di.curChunkNum)
+//@ loop 1 invariant di.curChunkData == old(di.curChunkData) && di.curChunkNum == old(di.curChunkNum) && base(uncompressed) == base(di.uncompressed) && decodedFrom(base(di.uncompressed)) == base(di.curChunkData) [C03]
+//@ assert bytes.Index#1 : decodedFrom(base($s)) == base(di.curChunkData) [C03]
+//@ ensures err == nil && len(di.uncompressed) > 0 ==> decodedFrom(base(di.uncompressed)) == base(di.curChunkData) [C03]
+//@ ensures di.curChunkData == old(di.curChunkData) && di.curChunkNum == old(di.curChunkNum)
 //@ end
 
 //@ func (*SegmentBase).VisitDocValues returns (dvsOut, err)
